@@ -229,9 +229,45 @@ static void initial_space_case(int n, SortRule rule)
     sym::witness("end");
 }
 
+// the public entry point: one pass of the real JDSymEigsBase::compute() loop (maxit = 1) with a symbolic tolerance.
+// Successful must mean that the residual norms of the first nev returned pairs are below the CALLER's tol.
+static void compute_case(int n, int nev, SortRule rule)
+{
+    c15::k6() = c15::K6();
+    MatOp op{sym_mat(n)};
+    DavidsonSymEigsSolver<MatOp> solver(op, nev, nev + 1, nev + 2);
+    Real tol = sym::fresh("tol", sym::NONNEG | sym::NONZERO);
+    sym::assume(sym::lt(tol, Real(1)));
+    Eigen::Index ret = solver.compute(rule, 1, tol);
+    sym::expect("info is Successful or NotConverging after one pass", solver.info() == CompInfo::Successful || solver.info() == CompInfo::NotConverging, "info");
+    RVec th = solver.eigenvalues();
+    RMat X = solver.eigenvectors();
+    sym::expect("accessor shapes", th.size() == nev && X.cols() == nev && X.rows() == n, "shape");
+    if (solver.info() == CompInfo::Successful)
+    {
+        sym::expect("Successful => compute() returns nev", ret == nev, "ret=" + std::to_string(ret));
+        for (int j = 0; j < nev; j++)
+        {
+            Real n2(0);
+            for (int i = 0; i < n; i++)
+            {
+                Real ax(0);
+                for (int c = 0; c < n; c++)
+                    ax = ax + op.A(i, c) * X(c, j);
+                Real r = ax - th[j] * X(i, j);
+                n2 = n2 + r * r;
+            }
+            sym::check("Successful => ||A x - theta x|| < tol (the caller's tol) [" + std::to_string(j) + "]", sym::lt(n2, tol * tol));
+        }
+    }
+    sym::witness("end");
+}
+
 int main(int argc, char** argv)
 {
     std::vector<sym::Case> cases;
+    cases.push_back({"compute/n3/nev1/LargestAlge", []() { compute_case(3, 1, SortRule::LargestAlge); }});
+    cases.push_back({"compute/n3/nev1/SmallestMagn", []() { compute_case(3, 1, SortRule::SmallestMagn); }});
     cases.push_back({"ritzpairs/n3/k1", []() { ritz_pairs_case(3, 1); }});
     cases.push_back({"ritzpairs/n3/k2", []() { ritz_pairs_case(3, 2); }});
     cases.push_back({"ritzpairs/n4/k2", []() { ritz_pairs_case(4, 2); }});
